@@ -16,6 +16,26 @@ INT_TYPES = {"int", "long long", "long", "unsigned int", "unsigned long",
 MAXB = 6
 
 
+SMALL_FACTOR = 16
+
+
+def _literal_factor(node):
+    """value of the integer-literal factor of a `*` node, if one side is a literal"""
+    if node.get("kind") != "BinaryOperator" or node.get("opcode") != "*":
+        return None
+    for side in node.get("inner", []):
+        n = strip(side)
+        neg = 1
+        if n.get("kind") == "UnaryOperator" and n.get("opcode") == "-":
+            n, neg = strip(n["inner"][0]), -1
+        if n.get("kind") == "IntegerLiteral":
+            try:
+                return neg * int(n.get("value"))
+            except (TypeError, ValueError):
+                return None
+    return None
+
+
 def is_int_type(t):
     return t.replace("const ", "").strip() in INT_TYPES
 
@@ -355,6 +375,14 @@ class Analyzer:
                             break
                     if ok:
                         break
+            if not ok and b.ubs and any(self.prover.nonneg(l, st) for l in b.lbs):
+                # c * x with a small literal c grows like the sums (x + x) the analysis does not question either
+                c = _literal_factor(node)
+                if c is not None and 2 <= abs(c) <= SMALL_FACTOR:
+                    for u in b.ubs:
+                        if any(self.prover.nonneg(ext * abs(c) - u, st) for ext in extents):
+                            ok, why = True, f"{abs(c)} times a value bounded by a block size (arrays assumed to hold fewer than 2^31 / {SMALL_FACTOR} elements)"
+                            break
             prev = seen.get(key)
             seen[key] = (ok if prev is None else (prev[0] and ok), why, node, b)
         for (line, txt), (ok, why, node, b) in seen.items():
